@@ -8,6 +8,8 @@ import (
 	"runtime/debug"
 	"sort"
 	"strings"
+	"sync"
+	"time"
 
 	"verifh/mon"
 	"verifh/world"
@@ -23,25 +25,32 @@ type propDef struct {
 	level string
 	rule  string
 	fn    func(run *mon.Run, thorough bool)
+	mins  map[string]int64 // monitor -> minimum number of evaluations for a conclusive run
 }
 
 var defs = map[string]propDef{
 	"C35": {"exploration", "real node.Pool built in permuted insertion orders + Round.SetRandomSeed/GetMinerRank/GetMinersByRank vs permutation/order-independence/determinism oracles; " +
 		"AddNotarizedBlock/UpdateNotarizedBlock op sequences vs a reference list (<=1 per rank, lightest rank number first, update stores the given pointer); " +
-		"distinct = (pool size, seed class) for ranks and (op-shape, list-shape) for notarized sequences", runC35},
+		"distinct = (pool size, seed class) for ranks and (op-shape, list-shape) for notarized sequences", runC35,
+		map[string]int64{"rank_permutation": 200, "rank_order_independent": 200, "rank_same_seed_same_ranking": 200, "nb_one_per_rank": 1000, "nb_sorted_heaviest_first": 1000, "nb_update_stores_given_block": 200}},
 	"C36": {"exploration", "real Chain.ComputeFinalizedBlock on a real chain whose rounds hold every level-structured tree of notarized blocks inside the stated depth/width bound " +
 		"(every parent assignment, every number of trailing empty rounds, PrevBlock linked or resolved through the block cache), plus seeded random larger trees; oracle = deepest common ancestor in an earlier round; " +
-		"finalizeRound driven over growing trees with the harness standing in for the finalized-block worker; distinct = tree shape (parent vectors, tail, link mode)", runC36},
+		"finalizeRound driven over growing trees with the harness standing in for the finalized-block worker; distinct = tree shape (parent vectors, tail, link mode)", runC36,
+		map[string]int64{"dca_linked": 1000, "dca_via_block_cache": 1000, "growth_finalized_descends_from_lfb": 100}},
 	"C39": {"exploration", "real SimpleNodes.reduce on generated candidate layouts (stakes with many ties, previous sets, limits, percentages, seeds) vs size/pinned/stake-order/determinism oracles, " +
 		"id renaming through random bijections, and selection frequencies over many seeds inside every class of interchangeable candidates (same stake, same previous-set membership); " +
-		"distinct = (n, limit, pinned count, tie-class position/size, cut-off inside tie) layout classes", runC39},
-	"C40": {"exploration", "real roundStartingStorage (Put/Get/Prune/FindRoundIndex/GetLatest) and real Chain.SetMagicBlock/GetMagicBlock/GetMagicBlockNoOffset/GetPrevMagicBlock: every insertion order of every set of <=N starting rounds " +
-		"drawn from a spaced grid, every query round in range +- the view-change offset, every prune point; oracle = reference floor lookup on a sorted slice; distinct = (start set, insertion order)", runC40},
+		"distinct = (n, limit, pinned count, tie-class position/size, cut-off inside tie) layout classes", runC39,
+		map[string]int64{"size_exact": 500, "tie_class_frequency": 50, "rename_keeps_stake_profile": 500}},
+	"C40": {"exploration", "real roundStartingStorage (Put/Get/Prune/FindRoundIndex/GetLatest) and real Chain.SetMagicBlock/GetMagicBlock/GetMagicBlockNoOffset/GetPrevMagicBlock/PruneRoundStorage: every insertion order of every set of <=N starting rounds " +
+		"drawn from a spaced grid, every query round in range +- the view-change offset, every prune point; oracle = reference floor lookup on a sorted slice; distinct = (start set, insertion order)", runC40,
+		map[string]int64{"storage_get_floor": 10000, "chain_get_magic_block": 10000, "prune_answers_unchanged": 10000, "chain_prune_answers_unchanged": 1000}},
 	"C42": {"exploration", "real Chain.IsBlockSharder/IsBlockSharderFromHash/CanShardBlockWithReplicators on sharder pools built in permuted insertion orders (nodes made by node.NewNode and by magic-block JSON decoding), " +
-		"seeded random block hashes, replicator counts {0,1,k,n,n+1}; oracle = identical responsible id sets across orders and entry points, |set| >= k when k <= n, k=0 => everyone; distinct = (n, k, |set|, construction) classes", runC42},
+		"seeded random block hashes, replicator counts {0,1,k,n,n+1}; oracle = identical responsible id sets across orders and entry points, |set| >= k when k <= n, k=0 => everyone; distinct = (n, k, |set|, construction) classes", runC42,
+		map[string]int64{"order_independent_set": 1000, "size_at_least_k": 1000, "k0_everyone": 100}},
 }
 
-// Main is the engine entry point.
+// Main is the engine entry point. The work runs in one child process under a watchdog: a call that never returns makes
+// the run inconclusive instead of blocking the harness, and what was judged before is kept (checkpoints).
 func Main(args []string) int {
 	fs := flag.NewFlagSet("unitchain", flag.ExitOnError)
 	prop := fs.String("prop", "C35", "property id")
@@ -52,19 +61,83 @@ func Main(args []string) int {
 		fmt.Printf("unitchain: unknown property %q (serves %s)\n", *prop, strings.Join(Props, " "))
 		return 2
 	}
-	defer mon.CleanScratch()
 	run := mon.NewRun(*prop, *tier, d.level, d.rule)
-	func() {
-		defer func() {
-			if r := recover(); r != nil {
-				// a panic inside the code under check on a generated input: the judged prefix stands, the run is not "held"
-				run.Inconclusive(fmt.Sprintf("panic in engine/code under check: %v", r))
-				run.Set("panic_stack", trimStack(string(debug.Stack())))
-			}
+	if mon.IsChild() {
+		func() {
+			defer func() {
+				if r := recover(); r != nil {
+					// a panic inside the code under check on a generated input: the judged prefix stands, the run is not "held"
+					run.Inconclusive(fmt.Sprintf("panic in engine/code under check: %v", r))
+					run.Set("panic_stack", trimStack(string(debug.Stack())))
+				}
+			}()
+			d.fn(run, *tier == "thorough")
 		}()
-		d.fn(run, *tier == "thorough")
-	}()
+		run.Checkpoint()
+		return 0
+	}
+	defer mon.CleanScratch()
+	to := 4 * time.Minute
+	if *tier == "thorough" {
+		to = 28 * time.Minute
+	}
+	res := mon.RunChildren(run, []mon.ChildSpec{{Name: *prop, Timeout: to, Args: []string{"unitchain", "-prop", *prop, "-tier", *tier}}}, 1)
+	for _, cr := range res {
+		if cr.TimedOut {
+			p := mon.KeepLog(cr, fmt.Sprintf("%s-watchdog-seed%d.log", *prop, run.SeedV))
+			run.Set("watchdog_goroutine_dump", p)
+		} else if cr.Crashed {
+			p := mon.KeepLog(cr, fmt.Sprintf("%s-crash-seed%d.log", *prop, run.SeedV))
+			run.Inconclusive(fmt.Sprintf("child crashed (exit %d, log %s): %s", cr.ExitCode, p, firstPanicLine(cr.LogTail)))
+		} else if cr.Partial == nil {
+			run.Inconclusive("child returned no result")
+		}
+	}
+	if run.Export().Extra["exhaustive_part_complete"] == true {
+		run.Exhaustive(true)
+	}
+	for name, n := range d.mins {
+		run.RequireMin(name, n)
+	}
 	return run.Finish()
+}
+
+func firstPanicLine(log string) string {
+	for _, l := range strings.Split(log, "\n") {
+		if strings.HasPrefix(l, "panic:") || strings.HasPrefix(l, "fatal error:") {
+			return l
+		}
+	}
+	return "no panic line in log tail"
+}
+
+// maxPerSignature bounds how many violations of one signature are recorded, so that a frequent finding cannot crowd
+// other signatures out of the (bounded) violation list; the rest is counted.
+const maxPerSignature = 20
+
+var (
+	sigMu    sync.Mutex
+	sigCount = map[string]int{}
+	lastCkpt = time.Now()
+)
+
+func violate(run *mon.Run, sig, detail string, replay interface{}) {
+	sigMu.Lock()
+	sigCount[sig]++
+	n := sigCount[sig]
+	sigMu.Unlock()
+	run.Count("violations_observed["+sig+"]", 1)
+	if n <= maxPerSignature {
+		run.Violate(sig, detail, replay)
+	}
+}
+
+// checkpoint hands the partial result to the parent now and then (wall clock only paces the hand-over, never an oracle).
+func checkpoint(run *mon.Run) {
+	if time.Since(lastCkpt) > 15*time.Second {
+		run.Checkpoint()
+		lastCkpt = time.Now()
+	}
 }
 
 func trimStack(s string) string {
